@@ -79,7 +79,12 @@ impl W {
         let (mutated, _, desc) = Gen::new(s0, s1, self.prof.clone()).program_sabotaged(&rets, Some(target));
         let desc = desc?;
         let mutated_text = print_program(&mutated, Parens::Minimal);
-        if !(mutated_text.contains("\"zz_sab\"") || mutated_text.contains("7.25f32")) {
+        // the marker has to be there as a token of its own: `47.25f32` is an ordinary literal
+        let has_float_marker = mutated_text
+            .split(|ch: char| !(ch.is_ascii_alphanumeric() || ch == '.' || ch == '_'))
+            .any(|tok| tok == "7.25f32");
+        let present = if desc.contains("zz_sab") { mutated_text.contains("\"zz_sab\"") } else { has_float_marker };
+        if !present {
             // the generator threw the expression away after building it
             return None;
         }
